@@ -177,4 +177,55 @@ def getPathRootOld (t : WT) : Res WN :=
 
 end
 
+/-! ### cost of VerifyBlockProof (fix 75bbdaf) -/
+
+/-- hash computations `CalcHash` performs on `n`: it descends into dirty nodes only -/
+def hashCost : WN → Nat
+  | .value _ _ _ d => if d then 1 else 0
+  | .short _ _ c d _ => if d then 1 + hashCost c else 0
+  | .routing _ ch _ d _ => if d then 1 + (allNib.map (fun i => hashCost (ch i))).sum else 0
+  | _ => 0
+
+/-- the dirty flag of the node itself cleared (what 75bbdaf does after a node of the proof has been hashed) -/
+def setClean : WN → WN
+  | .value h v w _ => .value h v w false
+  | .short k h c _ tc => .short k h c false tc
+  | .routing h ch w _ tc => .routing h ch w false tc
+  | n => n
+
+/-- `verifyProof` with a step counter (hash computations); `clear` = fix 75bbdaf.  Only shapes and dirty flags matter
+    for the count, so the hashes themselves are not refreshed here.  `none` = the proof is rejected. -/
+def verifyCost (clear : Bool) : List PairD → Nat → Option (WN × Nat)
+  | [], _ => none
+  | .nilPair :: _, _ => none
+  | .bad :: _, _ => none
+  | .ok p :: rest, block =>
+    match deserializeNode p with
+    | .err _ => none
+    | .ok n =>
+      let fin := fun (node : WN) (k : Nat) =>
+        some ((if clear then setClean node else node), k + hashCost node)
+      match n with
+      | .routing h ch w _ tc =>
+        match pickChild ch allNib block with
+        | none => none
+        | some (i, b') =>
+          match verifyCost clear rest b' with
+          | none => none
+          | some (c, k) => fin (.routing h (upd ch i c) w true tc) k
+      | .short k h c _ tc =>
+        if block > c.weight then none
+        else
+          match verifyCost clear rest block with
+          | none => none
+          | some (c', k') => fin (.short k h c' true tc) k'
+      | .value h v w _ => if block > w then none else fin (.value h v w true) 0
+      | _ => none
+
+/-- a proof of four elements: three short nodes over a value -/
+def chainProof : List PairD :=
+  let sh : PairD := .ok { short := some ⟨[1], [], List.replicate 32 0 ++ [0, 0, 0, 0, 0, 0, 0, 1]⟩ }
+  [sh, sh, sh, .ok { value := some ⟨[7], [], 1⟩ }]
+
+
 end Verif.Wmpt
